@@ -166,3 +166,98 @@ func c05LazyProc(c *core.Ctx) {
 		c.Sample(map[string]any{"case": cs, "at_return": atReturn})
 	})
 }
+
+// ---- an init method that panics half-way: the component has not completed its initialisation,
+// so a start that reports success (with dependents initialised on top of it) is a lifecycle
+// violation; the panic escaping Run, or an error, both are fine here
+
+type c5PanicDep struct {
+	where string // "aps" or "init"
+	Aps   int
+	Done  bool
+}
+
+func (d *c5PanicDep) Naming() string { return "pdep" }
+func (d *c5PanicDep) AfterPropertiesSet() error {
+	d.Aps++
+	if d.where == "aps" {
+		panic("AfterPropertiesSet panics half-way")
+	}
+	return nil
+}
+func (d *c5PanicDep) Init() error {
+	if d.where == "init" {
+		panic("Init panics half-way")
+	}
+	d.Done = true
+	return nil
+}
+
+type c5PanicLazyDep struct{ c5PanicDep }
+
+func (*c5PanicLazyDep) LazyInit() {}
+
+type c5PanicUser struct {
+	Dep   any `wire:"pdep"`
+	Inits int
+}
+
+func (u *c5PanicUser) Naming() string { return "puser" }
+func (u *c5PanicUser) Init() error    { u.Inits++; return nil }
+
+type c5PanicCase struct {
+	Where string `json:"panics_in"`
+	Lazy  bool   `json:"lazy_dependency"`
+	Desc  bool   `json:"descending_order,omitempty"`
+}
+
+func c05PanicInit(c *core.Ctx) {
+	gen := func(yield func(c5PanicCase) bool) {
+		for _, w := range []string{"aps", "init"} {
+			for _, lazy := range []bool{false, true} {
+				for _, desc := range []bool{false, true} {
+					if !yield(c5PanicCase{w, lazy, desc}) {
+						return
+					}
+				}
+			}
+		}
+	}
+	Cases(c, gen, func(c *core.Ctx, cs c5PanicCase) {
+		user := &c5PanicUser{}
+		var dep any
+		var d *c5PanicDep
+		if cs.Lazy {
+			x := &c5PanicLazyDep{c5PanicDep{where: cs.Where}}
+			dep, d = x, &x.c5PanicDep
+		} else {
+			x := &c5PanicDep{where: cs.Where}
+			dep, d = x, x
+		}
+		var base []string
+		if cs.Desc {
+			base = []string{"puser", "pdep"}
+		}
+		o := scen.Start(scen.StartSpec{Ch: envx.Fixed("", nil), Comps: []any{dep, user}, User: map[string]bool{"pdep": true, "puser": true}, Base: base})
+		c.S.Evaluations++
+		c.S.Programs++
+		c.S.States++
+		c.S.Nontrivial++
+		c.S.Transitions += int64(o.Trace.Calls)
+		key := "C05/panicking-init/" + core.Hash(cs)
+		switch {
+		case o.Abort != "":
+			c.Outcome("panic-init/hang")
+			c.Report(key, "non-termination", fmt.Sprintf("a dependency whose %s panics: %s", cs.Where, o.Abort), cs)
+		case o.OK():
+			c.Outcome("panic-init/start-succeeded")
+			c.Report(key, "incomplete-dependency", fmt.Sprintf("a dependency's %s panicked half-way (it never completed its initialisation: done=%v), yet Run returned nil and the dependent's Init ran %d time(s)", cs.Where, d.Done, user.Inits), cs)
+		case user.Inits != 0:
+			c.Outcome("panic-init/dependent-initialised")
+			c.Report(key, "incomplete-dependency", fmt.Sprintf("a dependency's %s panicked half-way, and the dependent's Init ran %d time(s) on top of it", cs.Where, user.Inits), cs)
+		default:
+			c.Outcome("panic-init/start-does-not-succeed")
+		}
+		c.Sample(map[string]any{"case": cs, "panic": o.Panic != "", "error": scen.FirstLine(o.Err)})
+	})
+}
